@@ -215,6 +215,39 @@ def gen_readonly_programs(tier: str, rnd: random.Random) -> list[dict]:
                           "span": {"guard": True, "documented": True, "decode": False, "detail": {"arg": sid}}})
             calls.append({"api": "read_setting", "args": [sid], "span": {"decode": False, "pair": False}})
         progs.append({"inv": [{"family": fam, "port": port, "sim": sim, "retries": 0}], "calls": calls})
+    # the monitoring API over device states: work mode x content of the first eco-mode group x value of unset registers
+    from .checks_shuffle import obj_spec
+    from .checks_modes import V1_PRIORS, V2_PRIORS
+    names = ["et205", "et745tcp", "es_v1", "es_v2", "dt3"]
+    for name in names:
+        fam = {"et": "ET", "es": "ES", "dt": "DT"}[name[:2]]
+        priors = list(V1_PRIORS if name == "es_v1" else V2_PRIORS) + ["ff"]
+        if fam == "DT":
+            priors = ["zeros"]
+        for prior in priors:
+            for wm in ((0, 3) if (quick and prior in ("zeros", "off", "partial")) else range(0, 7)):
+                for default in ((0,) if (quick and wm not in (0, 3)) else (0, 0xFFFF)):
+                    spec = obj_spec(name, rnd, prior if prior != "ff" else "zeros")
+                    regs = spec["sim"]["regs"]
+                    if prior == "ff":
+                        for g in (47547, 47515, 1793):
+                            for i in range(6):
+                                regs[g + i] = 0xFFFF
+                    regs[47000] = wm
+                    regs[0x0550 + 33] = wm << 8 | wm          # ES: settings byte 66 (and its neighbour)
+                    spec["sim"]["default"] = default
+                    calls = [{"api": "read_device_info"}]
+                    if fam != "DT":
+                        calls += [{"api": "get_operation_mode"}, {"api": "get_ongrid_battery_dod"},
+                                  {"api": "read_setting", "args": ["eco_mode_1"], "span": {"decode": False, "pair": False}}]
+                    calls += [{"api": "get_grid_export_limit"}, {"api": "read_settings_data", "span": {"decode": False}},
+                              {"api": "read_runtime_data", "span": {"decode": False}}]
+                    if fam != "DT":
+                        calls += [{"api": "get_operation_mode"}]
+                    for c in calls:
+                        c.setdefault("span", {"decode": False})
+                        c["span"]["detail"] = {"state": f"{name} work_mode={wm} eco1={prior} unset={default:#x}"}
+                    progs.append({"inv": [spec], "calls": calls})
     # connect / discover are monitoring calls too
     for fam, tag in (("ET", "ETU"), ("DT", "DTU"), ("ES", "ESU")):
         serial = serial_for(tag)
